@@ -16,7 +16,7 @@ import (
 
 func init() {
 	vc.Register(&vc.Check{ID: "C20", Level: "model_checking", Run: run, Replay: replay, QuickSec: 80, ThoroSec: 1000, NeedsInst: true,
-		Rule: "systematic schedule exploration of the REAL library code (instrumented from the working tree at every run: package sync replaced by a scheduler-aware shim, a scheduling marker before every statement of reader, verifier, mobile and the cms certificate pools). Scenarios S1 shared reader.Reader (ReadDocument || SkipImages || WithAAChallenge), S2 shared verifier.Verifier (Verify || WithAAChallenge(c') || Verify), S3 shared mobile.Reader (ReadDocument || SetApduMaxLe;SkipImages || ReadDocument on one chip), S4 two readers + one verifier sharing a GenericCertPool inside a CombinedCertPool, S5/S5f three mobile.PreloadCscaCertPool + mobile.Verifier.Verify on the lazily loaded built-in store (S5f: a loader fails); fresh objects, a deterministic BAC + active-authentication chip (about 35 exchanges per read) and per-thread deterministic randomness in every execution. Per scenario EVERY schedule with at most P preemptions is executed (replay-prefix DFS; forced switches are free), at two granularities: 'sync' = scheduling points at every Lock/Unlock/Once.Do, every Transceive, every status callback, every trust store loader, every call of a certificate pool method (S1, S2, S4; in S3/S5 the pool traffic is not shared and these points are left to statement granularity) and thread start; 'stmt' = additionally before every statement of the instrumented files. Bounds per scenario are listed in coverage.scenarios. Oracle: the joint outcome (every call's result: error, files with content hashes, verdicts, AA nonce, exchanges; plus what the chip / status listener / loader counters saw) equals the outcome of SOME sequential order of the same calls (brute force over all interleavings of whole calls); S5: loaders ran exactly once and all callers saw one pool / one error; no deadlock; no panic. evaluations = schedules executed to completion and judged; states = distinct control states (vector of per-thread operation histories) at choice points, per worker; transitions = scheduling points executed; traces_validated_against_impl = executions of the real code; distinct_nontrivial = distinct (scenario, granularity, preemptions, outcome). The free-running -race pass (same bodies, real goroutines, shim in pass-through; in S4 the three parties meet right before passive authentication; plus S6 = 6 verifiers released from a barrier on one shared CombinedCertPool / GenericCertPool and S7 = 4 mobile.Verifiers on the loaded built-in store, because the detector only sees conflicting accesses that are not separated by the library's own fmt/sync.Pool happens-before edges, i.e. practically simultaneous ones) is run by run_c20.sh alongside this part and folded in by worker 0.",
+		Rule: "systematic schedule exploration of the REAL library code (instrumented from the working tree at every run: package sync replaced by a scheduler-aware shim, a scheduling marker before every statement of reader, verifier, mobile and the cms certificate pools). Scenarios S1 shared reader.Reader (ReadDocument || SkipImages || WithAAChallenge), S2 shared verifier.Verifier (Verify || WithAAChallenge(c') || Verify), S3 shared mobile.Reader (ReadDocument || SetApduMaxLe;SkipImages || ReadDocument on one chip), S4 two readers + one verifier sharing a GenericCertPool inside a CombinedCertPool, S5/S5f three mobile.PreloadCscaCertPool + mobile.Verifier.Verify on the lazily loaded built-in store (S5f: a loader fails); fresh objects, a deterministic BAC + active-authentication chip (about 35 exchanges per read) and per-thread deterministic randomness in every execution. Per scenario EVERY schedule with at most P preemptions is executed (replay-prefix DFS; forced switches are free), at two granularities: 'sync' = scheduling points at every Lock/Unlock/Once.Do, every Transceive, every status callback, every trust store loader, every call of a certificate pool method (S1, S2, S4; in S3/S5 the pool traffic is not shared and these points are left to statement granularity) and thread start; 'stmt' = additionally before every statement of the instrumented files. Bounds per scenario are listed in coverage.scenarios. L0 (no concurrency, the anchor for 'the result a lone call would have returned'): 225 (thorough 465) configurations of the mobile bindings - SetApduMaxLe x SkipPace x SkipImages x WithAAChallenge x password kind x 4 chip arrangements; 9 verifier cases - against the engine objects they wrap: identical result, exchange count, byte-exact command stream at the chip and challenges signed. Reference semantics of setters is call-by-value: in explored and free-running executions the caller recycles its argument buffer right after the setter returned. Oracle: the joint outcome (every call's result: error, files with content hashes, verdicts, AA nonce, exchanges; plus what the chip / status listener / loader counters saw) equals the outcome of SOME sequential order of the same calls (brute force over all interleavings of whole calls); S5: loaders ran exactly once and all callers saw one pool / one error; no deadlock; no panic. evaluations = schedules executed to completion and judged; states = distinct control states (vector of per-thread operation histories) at choice points, per worker; transitions = scheduling points executed; traces_validated_against_impl = executions of the real code; distinct_nontrivial = distinct (scenario, granularity, preemptions, outcome). The free-running -race pass (same bodies, real goroutines, shim in pass-through; in S4 the three parties meet right before passive authentication; plus S6 = 6 verifiers released from a barrier on one shared CombinedCertPool / GenericCertPool and S7 = 4 mobile.Verifiers on the loaded built-in store, because the detector only sees conflicting accesses that are not separated by the library's own fmt/sync.Pool happens-before edges, i.e. practically simultaneous ones) is run by run_c20.sh alongside this part and folded in by worker 0.",
 		Assume: []string{
 			"scheduling points are statement boundaries of the instrumented files and the shim operations: interleavings inside one statement (expression evaluation order) and inside uninstrumented packages (iso7816, document, passiveauth, cms parsing) are not explored; those packages are only reached through per-call objects in these scenarios",
 			"the cooperative executions hide data races from the race detector by construction; unsynchronised accesses are the job of the statement-granularity exploration (they show as non-sequential outcomes) and of the separate free-running -race pass",
@@ -119,6 +119,9 @@ func run(c *vc.Ctx) {
 		return
 	}
 	only := os.Getenv("C20_ONLY") // debugging aid: comma separated scenario ids
+	if only == "" || strings.Contains(","+only+",", ",L0,") {
+		layerSection(c, e)
+	}
 	var scInfo []map[string]any
 	var progs []*scProgress
 	for _, sc := range scenarios() {
@@ -309,6 +312,19 @@ func replay(c *vc.Ctx, raw json.RawMessage) string {
 	e, err := newEnv(true)
 	if err != nil {
 		return "set-up: " + err.Error()
+	}
+	if strings.HasPrefix(doc.Section, "L0 ") {
+		var ld struct {
+			Case layerCase `json:"case"`
+		}
+		if err := json.Unmarshal(raw, &ld); err != nil {
+			return err.Error()
+		}
+		key, what, obs, herr := runLayer(e, ld.Case)
+		if key != "" {
+			c.Violation(doc.Section, key, what, ld.Case, nil)
+		}
+		return fmt.Sprintf("layer case %+v\n  observation: %s\n  verdict: %s %s %v", ld.Case, obs, key, what, herr)
 	}
 	for _, sc := range scenarios() {
 		if sc.id != doc.Case.Scenario {
